@@ -27,6 +27,19 @@
       constructor call it ends in.  Tie hypotheses kept visible: the stored type string names a class with the keywords
       `ctorKw` (`hkl`), distinct keywords (`hn`), no constructor keyword is stored as a sub-group (`hds`).
 
+    * write → load ROUND TRIPS OF COMPONENTS, both sides regenerated (`src_isothermal_roundtrip`, `src_guillot_roundtrip`,
+      `src_npoint_roundtrip`, `src_taurexchemistry_roundtrip`, `src_transmission_model_roundtrip`): the component's own
+      regenerated `write` (`Isothermal.write`, `Guillot2010.write`, `NPoint.write` over `TemperatureProfile.write`;
+      `TaurexChemistry.write` over `Chemistry.write`; `TransmissionModel.write` over `SimpleForwardModel.write` over
+      `ForwardModel.write`) run in the writer world `WWorld` (`Proofs/C16SrcWrite.lean`: a component instance with its data
+      attributes and the components it holds) DERIVES the written group content, and the regenerated loader
+      (`load_temperature_from_hdf5`, `load_chemistry_from_hdf5`, `load_model_from_hdf5`, all over
+      `load_generic_profile_from_hdf5`) applied to exactly that group calls the class of the written name with the written
+      entries that are constructor keywords.  `src_reload_same_kwargs` below is the older, generic form for a record
+      written with `store_dictionary` (there the written group is the model's `store` of the record).  Tie hypotheses kept
+      visible: the class table of the loader's world (`hkl`: the written name is a class with keywords `ctorKw`), distinct
+      keywords, the type key is not a constructor keyword.
+
   Not restated (no tie)
     * `canon_wf`: about the specification `canon` alone.  `load_store_eq`: the equation form of `load_store` (restated).
     * `store_error_iff` for a non-dictionary argument (`Err.notDict`): the test is `Output.store_dictionary`'s, not in the
@@ -265,6 +278,253 @@ theorem src_reload_omitted_kwarg (kw : String) (hom : entries.lookup kw = none) 
 end reload
 
 end storage
+
+/-! ## write → load round trips of components -/
+
+section roundtrip
+variable {α : Type} [OfInt α] [FloatLike α]
+
+theorem lookup_mem {β : Type} {l : List (String × β)} {k : String} {v : β} (h : l.lookup k = some v) :
+    (k, v) ∈ l := by
+  induction l with
+  | nil => cases h
+  | cons x t ih =>
+    obtain ⟨k', v'⟩ := x
+    simp only [List.lookup_cons] at h
+    cases hb : (k == k') with
+    | true =>
+      rw [hb] at h
+      simp only [Option.some.injEq] at h
+      have : k = k' := by simpa using hb
+      subst this h
+      exact List.mem_cons_self
+    | false =>
+      rw [hb] at h
+      exact List.mem_cons_of_mem _ (ih h)
+
+/-- the stored form of a component record (`Output.writeComponent`: the class name under `typeKey`, then `entries` — none
+    of them a dictionary) is a group the loader accepts: the type string is there, no constructor keyword is a
+    sub-group, and the keyword arguments it collects are the written entries that are constructor keywords, in constructor
+    order -/
+theorem written_reloadable (wl : LWorld α) (typeKey : String) (c : List Nat) (entries : List (String × Value α))
+    (ctorKw : List String) (hwf : wfEntries entries = true) (hnd : ∀ e ∈ entries, isDict e.2 = false)
+    (hk : ∀ kw ∈ ctorKw, kw ≠ typeKey) (name : String) (es : List (String × Node α))
+    (hm : storeThing name (writeComponent typeKey c entries) = .ok es)
+    (hkl : wl.klassOf c = some ctorKw) (hn : ctorKw.Nodup) :
+    ∃ ch, es = [(name, .group ch)] ∧ ch.lookup typeKey = some (.vstr c) ∧ Reloadable wl ch c ctorKw ∧
+      loadKwargs ch ctorKw = ctorKw.filterMap (fun kw => (entries.lookup kw).map (fun v => (kw, v))) := by
+  obtain ⟨ch, hch, rfl⟩ := storeThing_dict_ok hm
+  have hwf' : wfEntries ((typeKey, Value.str c) :: entries) = true := by simp [wfEntries, wfVal, hwf]
+  obtain ⟨ch', hc', hl, -⟩ := storeEntries_wf _ hwf'
+  have e : ch' = ch := by
+    have := hc'.symm.trans hch
+    simpa using this
+  subst e
+  have hstore : store (writeComponent typeKey c entries) = .ok (.group ch') := by
+    simp [store, writeComponent, hch]
+  have hr := reload_same_kwargs typeKey c entries ctorKw hwf hk
+  unfold reloadComponent at hr
+  rw [hstore] at hr
+  simp only [Except.ok.injEq, Prod.mk.injEq] at hr
+  obtain ⟨h1, h2⟩ := hr
+  have htype : ch'.lookup typeKey = some (.vstr c) := by
+    cases hlk : ch'.lookup typeKey with
+    | none => rw [hlk] at h1; cases h1
+    | some n =>
+      rw [hlk] at h1
+      simp only [Option.map_some, Option.some.injEq] at h1
+      rw [load_eq_str h1]
+  refine ⟨ch', rfl, htype, ⟨hkl, hn, ?_⟩, h2⟩
+  intro kw hkw n hlk
+  cases n with
+  | group g =>
+    exfalso
+    have h3 : (loadEntries ch').lookup kw = some (.dict (loadEntries g)) := by
+      rw [lookup_loadEntries, hlk]; simp [load]
+    rw [hl] at h3
+    have hne : (kw == typeKey) = false := by simpa using hk kw hkw
+    simp only [List.lookup_cons, hne] at h3
+    have := hnd _ (lookup_mem h3)
+    simp [isDict] at this
+  | _ => rfl
+
+/-- a temperature-profile record: what its `write` stores (the model's `storeThing` of its `writeComponent`) is one group
+    `Temperature`, and the regenerated `load_temperature_from_hdf5` applied to any file holding that group calls the class
+    of the written name with the written entries that are constructor keywords, in constructor order -/
+theorem temperature_reload (wl : LWorld α) (c : List Nat) (entries : List (String × Value α)) (ctorKw : List String)
+    (hwf : wfEntries entries = true) (hnd : ∀ e ∈ entries, isDict e.2 = false)
+    (hk : ∀ kw ∈ ctorKw, kw ≠ "temperature_type") (hkl : wl.klassOf c = some ctorKw) (hn : ctorKw.Nodup) :
+    ∃ ch, storeThing "Temperature" (writeComponent "temperature_type" c entries) = .ok [("Temperature", .group ch)] ∧
+      ∀ top : List (String × Node α), top.lookup "Temperature" = some (.group ch) →
+        SrcC16.load_temperature wl.ext (.obj (.h5 top)) .none
+          = wl.call (.klass c ctorKw) []
+              (embKwL wl.enc (ctorKw.filterMap (fun kw => (entries.lookup kw).map (fun v => (kw, v))))) := by
+  have hwf' : wfVal (writeComponent "temperature_type" c entries) = true := by
+    simp [writeComponent, wfVal, wfEntries, hwf]
+  obtain ⟨n, hst, -⟩ := storeThing_wf "Temperature" _ hwf'
+  obtain ⟨ch, he, htype, hr, hkw⟩ := written_reloadable wl "temperature_type" c entries ctorKw hwf hnd hk
+    "Temperature" _ hst hkl hn
+  refine ⟨ch, by rw [hst, he], fun top htop => ?_⟩
+  rw [src_load_temperature wl top ch c ctorKw htop htype hr, hkw]
+
+section
+variable (ww : WWorld α) (hww : WWorldOK ww) (wl : LWorld α) (c : List Nat) (attr : String → Option (Value α))
+  (part : String → Option (SubComp α)) (ctorKw : List String) (hk : ∀ kw ∈ ctorKw, kw ≠ "temperature_type")
+  (hkl : wl.klassOf c = some ctorKw) (hn : ctorKw.Nodup) (q : List String) (s : Log α)
+include hww hk hkl hn
+
+/-- **write → load round trip of `Isothermal`**, both sides regenerated: `Isothermal.write` creates one group
+    `Temperature` (`ch`), and `load_temperature_from_hdf5` on any file holding that group calls the class of the written
+    name with `T = self._iso_temp` if `T` is a constructor keyword (and with nothing else) -/
+theorem src_isothermal_roundtrip (T : α) (hT : attr "_iso_temp" = some (.float T)) :
+    ∃ ch, SrcC16.isothermal_write ww.ext (.obj (.comp c attr part)) (.obj (.group q)) s
+        = (.ok (.obj (.group (q ++ ["Temperature"]))), s ++ flat q [("Temperature", .group ch)]) ∧
+      ∀ top : List (String × Node α), top.lookup "Temperature" = some (.group ch) →
+        SrcC16.load_temperature wl.ext (.obj (.h5 top)) .none
+          = wl.call (.klass c ctorKw) []
+              (embKwL wl.enc (ctorKw.filterMap (fun kw => ([("T", Value.float T)].lookup kw).map (fun v => (kw, v))))) := by
+  obtain ⟨ch, hst, hload⟩ := temperature_reload wl c [("T", Value.float T)] ctorKw (by simp [wfEntries, wfVal])
+    (by simp [isDict]) hk hkl hn
+  exact ⟨ch, src_isothermal_write ww hww c attr part T hT q s _ hst, hload⟩
+
+/-- **write → load round trip of `Guillot2010`**: the six written parameters come back as the constructor keywords of the
+    same names.  (The attribute `kappa_ir` is written as `kappa_irr`, the constructor's name for it.) -/
+theorem src_guillot_roundtrip (Tirr kir kv1 kv2 al Tint : α)
+    (h1 : attr "T_irr" = some (.float Tirr)) (h2 : attr "kappa_ir" = some (.float kir))
+    (h3 : attr "kappa_v1" = some (.float kv1)) (h4 : attr "kappa_v2" = some (.float kv2))
+    (h5 : attr "alpha" = some (.float al)) (h6 : attr "T_int" = some (.float Tint)) :
+    ∃ ch, SrcC16.guillot_write ww.ext (.obj (.comp c attr part)) (.obj (.group q)) s
+        = (.ok (.obj (.group (q ++ ["Temperature"]))), s ++ flat q [("Temperature", .group ch)]) ∧
+      ∀ top : List (String × Node α), top.lookup "Temperature" = some (.group ch) →
+        SrcC16.load_temperature wl.ext (.obj (.h5 top)) .none
+          = wl.call (.klass c ctorKw) []
+              (embKwL wl.enc (ctorKw.filterMap (fun kw =>
+                ([("T_irr", Value.float Tirr), ("kappa_irr", .float kir), ("kappa_v1", .float kv1),
+                  ("kappa_v2", .float kv2), ("alpha", .float al), ("T_int", .float Tint)].lookup kw).map
+                  (fun v => (kw, v))))) := by
+  obtain ⟨ch, hst, hload⟩ := temperature_reload wl c
+    [("T_irr", Value.float Tirr), ("kappa_irr", .float kir), ("kappa_v1", .float kv1), ("kappa_v2", .float kv2),
+     ("alpha", .float al), ("T_int", .float Tint)] ctorKw (by simp [wfEntries, wfVal]) (by simp [isDict]) hk hkl hn
+  exact ⟨ch, src_guillot_write ww hww c attr part Tirr kir kv1 kv2 al Tint h1 h2 h3 h4 h5 h6 q s _ hst, hload⟩
+
+/-- **write → load round trip of `NPoint`**: temperatures, the point lists (as the arrays `np.array` makes of them),
+    pressures (`-1` for an unset one), smoothing window and slope limit come back under the constructor's names -/
+theorem src_npoint_roundtrip (Ts Tt ls : α) (tp pp : List α) (ps pt : Value α) (sw : Int)
+    (hps : ps = .unsupported ∨ ∃ x, ps = .float x) (hpt : pt = .unsupported ∨ ∃ x, pt = .float x)
+    (h1 : attr "_T_surface" = some (.float Ts)) (h2 : attr "_T_top" = some (.float Tt))
+    (h3 : attr "_t_points" = some (.list (tp.map .float))) (h4 : attr "_P_surface" = some ps)
+    (h5 : attr "_P_top" = some pt) (h6 : attr "_p_points" = some (.list (pp.map .float)))
+    (h7 : attr "_smooth_window" = some (.int sw)) (h8 : attr "_limit_slope" = some (.float ls)) :
+    ∃ ch, SrcC16.npoint_write ww.ext (.obj (.comp c attr part)) (.obj (.group q)) s
+        = (.ok (.obj (.group (q ++ ["Temperature"]))), s ++ flat q [("Temperature", .group ch)]) ∧
+      ∀ top : List (String × Node α), top.lookup "Temperature" = some (.group ch) →
+        SrcC16.load_temperature wl.ext (.obj (.h5 top)) .none
+          = wl.call (.klass c ctorKw) []
+              (embKwL wl.enc (ctorKw.filterMap (fun kw =>
+                ([("T_surface", Value.float Ts), ("T_top", .float Tt), ("temperature_points", .array (arrOf tp)),
+                  ("P_surface", orMinus1 ps), ("P_top", orMinus1 pt), ("pressure_points", .array (arrOf pp)),
+                  ("smoothing_window", .int sw), ("limit_slope", .float ls)].lookup kw).map (fun v => (kw, v))))) := by
+  have hw1 : wfVal (orMinus1 ps) = true ∧ isDict (orMinus1 ps) = false := by
+    rcases hps with rfl | ⟨x, rfl⟩
+    · exact ⟨rfl, rfl⟩
+    · simp only [orMinus1]; split <;> exact ⟨rfl, rfl⟩
+  have hw2 : wfVal (orMinus1 pt) = true ∧ isDict (orMinus1 pt) = false := by
+    rcases hpt with rfl | ⟨x, rfl⟩
+    · exact ⟨rfl, rfl⟩
+    · simp only [orMinus1]; split <;> exact ⟨rfl, rfl⟩
+  obtain ⟨ch, hst, hload⟩ := temperature_reload wl c
+    [("T_surface", Value.float Ts), ("T_top", .float Tt), ("temperature_points", .array (arrOf tp)),
+     ("P_surface", orMinus1 ps), ("P_top", orMinus1 pt), ("pressure_points", .array (arrOf pp)),
+     ("smoothing_window", .int sw), ("limit_slope", .float ls)] ctorKw
+    (by simp [wfEntries, wfVal, arrOf, hw1.1, hw2.1])
+    (by
+      intro e he
+      simp only [List.mem_cons, List.not_mem_nil, or_false] at he
+      rcases he with rfl | rfl | rfl | rfl | rfl | rfl | rfl | rfl <;> first | rfl | exact hw1.2 | exact hw2.2)
+    hk hkl hn
+  exact ⟨ch, src_npoint_write ww hww c attr part Ts Tt ls tp pp ps pt sw hps hpt h1 h2 h3 h4 h5 h6 h7 h8 q s _ hst, hload⟩
+
+end
+
+/-- **write → load round trip of a `TaurexChemistry`**, both sides regenerated: `TaurexChemistry.write` creates the group
+    `Chemistry` with exactly the entries `chemG` (class name, active / inactive gas names, condensates, fill ratios, fill
+    gases, then what every gas profile's `write` stores), and `load_chemistry_from_hdf5` on any file holding that group
+    reloads the class of the written name and re-adds the gases named in the WRITTEN active / inactive lists (as the
+    fixed-width cells return them: `sCell`, the identity on names not ending in NUL) that are not fill gases -/
+theorem src_taurexchemistry_roundtrip (ww : WWorld α) (hww : WWorldOK ww) (wl : LWorld α) (c : List Nat)
+    (attr : String → Option (Value α)) (part : String → Option (SubComp α)) (act inact : List (List Nat))
+    (cond : Option (List (List Nat))) (hc : ChemAttrs attr act inact cond) (fg : List (List Nat)) (fr : List α)
+    (gs : List (String × Value α)) (hfg : attr "_fill_gases" = some (.list (fg.map .str)))
+    (hfr : attr "_fill_ratio" = some (.list (fr.map .float))) (hga : attr "_gases" = none)
+    (hgs : part "_gases" = some (.many gs)) (ges : List (String × Node α)) (hges : storeEntries gs = .ok ges)
+    (q : List String) (s : Log α) :
+    let chemG := chemEntries c act inact cond ++ [("ratio", .num (arrOf fr)), ("fill_gases", stringNode fg)] ++ ges
+    SrcC16.taurexchemistry_write ww.ext (.obj (.comp c attr part)) (.obj (.group q)) s
+        = (.ok (.obj (.group (q ++ ["Chemistry"]))), s ++ flat q [("Chemistry", .group chemG)]) ∧
+      ∀ (top : List (String × Node α)) (kws : List String), top.lookup "Chemistry" = some (.group chemG) →
+        Reloadable wl chemG c kws →
+        (∀ r ∈ act.map sCell ++ inact.map sCell, GasGood wl chemG (wl.enc r)) →
+        SrcC16.load_chemistry wl.ext (.obj (.h5 top)) .none
+          = chemistrySpec wl chemG c kws (act.map sCell) (inact.map sCell) := by
+  intro chemG
+  refine ⟨src_taurexchemistry_write ww hww c attr part act inact cond hc fg fr gs hfg hfr hga hgs ges hges q s, ?_⟩
+  intro top kws htop hr hgas
+  have ht : chemG.lookup "chemistry_type" = some (.vstr c) := by
+    simp [chemG, chemEntries]
+  have ha' : chemG.lookup "active_gases" = some (.sfix (cellWidth act) (act.map sCell)) := by
+    simp [chemG, chemEntries, List.lookup, stringNode]
+  have hi' : chemG.lookup "inactive_gases" = some (.sfix (cellWidth inact) (inact.map sCell)) := by
+    simp [chemG, chemEntries, List.lookup, stringNode]
+  exact src_load_chemistry wl top chemG c kws _ _ _ _ htop ht hr ha' hi' hgas
+
+/-! ### the whole model -/
+
+/-- the group `ModelParameters` that `TransmissionModel.write` creates, given the groups its parts create -/
+def modelGroup (c : List Nat) (ces g1 g2 g3 g4 g5 : List (String × Node α)) (b : Bool) : List (String × Node α) :=
+  [("model_type", .vstr c), ("Contributions", .group ces), ("Chemistry", .group g1), ("Temperature", .group g2),
+   ("Pressure", .group g3), ("Planet", .group g4), ("Star", .group g5), ("new_path_method", .num ⟨[], .bools [b]⟩)]
+
+/-- **write → load round trip of a `TransmissionModel`**, both sides regenerated.  The model holds a chemistry, a
+    temperature profile, a pressure profile, a planet and a star whose own `write` create the groups `Chemistry`,
+    `Temperature`, `Pressure`, `Planet`, `Star` with the entries `g1 … g5` (`storeEntries dᵢ`), and contributions whose
+    `write` create the entries `ces`.  Then `TransmissionModel.write` (through `SimpleForwardModel.write` and
+    `ForwardModel.write`) creates exactly the group `modelGroup …`, and `load_model_from_hdf5` applied to that group reads
+    THOSE groups: whatever description `f` of the file the loader's world admits, its component groups are the written ones
+    and the loader does `modelSpec` on them (each component reloaded by the class of its stored type string with
+    `Output.loadKwargs` of its written group, the model class called with them and its own stored keywords, every
+    contribution group reloaded and added in written order). -/
+theorem src_transmission_model_roundtrip (ww : WWorld α) (hww : WWorldOK ww) (wl : LWorld α) (c : List Nat)
+    (attr : String → Option (Value α)) (part : String → Option (SubComp α)) (cs : List (String × Value α))
+    (ha : attr "contribution_list" = none) (hp : part "contribution_list" = some (.many cs))
+    (d1 d2 d3 d4 d5 : List (String × Value α))
+    (hh : Held attr part ("Chemistry", .dict d1) ("Temperature", .dict d2) ("Pressure", .dict d3) ("Planet", .dict d4)
+      ("Star", .dict d5))
+    (b : Bool) (hb : attr "new_method" = some (.bool b))
+    (ces g1 g2 g3 g4 g5 : List (String × Node α)) (hces : storeEntries cs = .ok ces)
+    (h1 : storeEntries d1 = .ok g1) (h2 : storeEntries d2 = .ok g2) (h3 : storeEntries d3 = .ok g3)
+    (h4 : storeEntries d4 = .ok g4) (h5 : storeEntries d5 = .ok g5) (q : List String) (s : Log α) :
+    SrcC16.transmission_write ww.ext (.obj (.comp c attr part)) (.obj (.group q)) s
+        = (.ok (.obj (.group (q ++ ["ModelParameters"]))),
+           s ++ flat q [("ModelParameters", .group (modelGroup c ces g1 g2 g3 g4 g5 b))]) ∧
+      ∀ f : ModelFile wl (modelGroup c ces g1 g2 g3 g4 g5 b),
+        f.chem = g1 ∧ f.temp = g2 ∧ f.press = g3 ∧ f.planet = g4 ∧ f.star = g5 ∧ f.contribs = ces ∧ f.mnm = c ∧
+        SrcC16.load_model wl.ext (.obj (.h5 (modelGroup c ces g1 g2 g3 g4 g5 b))) .none
+          = modelSpec wl (modelGroup c ces g1 g2 g3 g4 g5 b) f := by
+  constructor
+  · apply src_transmission_write ww hww c attr part cs ha hp _ _ _ _ _ hh b hb q s
+    simp [modelValue, writeComponent, storeThing, storeEntries, hces, h1, h2, h3, h4, h5, modelGroup]
+  · intro f
+    have e1 := f.hchem
+    have e2 := f.htemp
+    have e3 := f.hpress
+    have e4 := f.hplanet
+    have e5 := f.hstar
+    have e6 := f.hcontribs
+    have e7 := f.hmtype
+    simp [modelGroup, List.lookup] at e1 e2 e3 e4 e5 e6 e7
+    exact ⟨e1.symm, e2.symm, e3.symm, e4.symm, e5.symm, e6.symm, e7.symm, src_load_model wl _ f⟩
+
+end roundtrip
 
 /-! ## spectrum dictionaries -/
 
